@@ -707,7 +707,12 @@ def oracles(lines):
         m = re.search(r"contexts=(\d+)", res)
         if m and not parked_then:
             expect = len([a for a in live_then if a not in exited_then])
-            # only a Q that comes right after the long drain of finish() (or right before the final X)
-            if len(rec["ops"]) - k <= 6 and int(m.group(1)) != expect:
+            # only a Q that comes right after the long drain of finish(): at least ten rounds of "time passes, poll" with no
+            # frontend activity other than retries right before it (a script that ends early, without the drain, says nothing
+            # about reclamation: an exited thread's context goes away only at an idle pass)
+            before = rec["ops"][max(0, k - 260):k]
+            drained = sum(1 for (w2, _, _) in before if w2[0] == "K" and len(w2) > 1 and w2[1].isdigit() and int(w2[1]) >= 2000000) >= 10 \
+                and all(w2[0] in ("K", "P", "R", "Q") for (w2, _, _) in before[-40:])
+            if drained and len(rec["ops"]) - k <= 6 and int(m.group(1)) != expect:
                 viol.append(("C20", "after the drain %s contexts are retained but %d live threads have logged" % (m.group(1), expect)))
     return viol
